@@ -34,6 +34,15 @@ pub struct OuterFrom {
 
 impl OuterFrom {
     pub fn start(di: &syn::DeriveInput) -> Result<Self> {
+        // The traits built on `OuterFrom` describe a single syntax element and can only be
+        // derived for structs. An enum with variants is reported variant by variant while
+        // its body is read; one without variants has to be rejected here.
+        if let syn::Data::Enum(data) = &di.data {
+            if data.variants.is_empty() {
+                return Err(Error::unsupported_format("enum").with_span(&di.ident));
+            }
+        }
+
         Ok(OuterFrom {
             container: Core::start(di)?,
             attrs: Default::default(),
